@@ -434,6 +434,9 @@ NAME_POOLS = [
     lambda k, i: f'{"ZYXWVUTSRQPONMLKJIHGFEDCBA"[i % 26]}{i}',
     lambda k, i: f'e{i}',
     lambda k, i: f'{k}_{"abcdefgh"[i % 8]}{i // 8}',
+    # names that differ only in case (R0 / r0 — large- and small-signal twins): distinct ids all the same
+    # (seeded change C15-5B, a case-folding name table on reload)
+    lambda k, i: f'{"Rr"[i % 2]}{i // 2}',
 ]
 NODE_NAME_POOLS = [['A', 'B', 'C', 'D', 'E'], ['1', '2', '3', '4', '5'], ['n1', 'N1', 'out', 'in', 'x'],
                    ['2', 'a', '3', 'b', '10'], ['é', 'Ω', 'µ', 'z', '~']]
